@@ -752,7 +752,7 @@ class Choice(object):
         return 'Choice(%r ? %r : %r)' % (self.cond, self.a, self.b)
 
     def map(self, fn):
-        return Choice(self.cond, fn(self.a), fn(self.b))
+        return _same_or_choice(self.cond, fn(self.a), fn(self.b))
 
 
 def mk_choice(cond, a, b):
@@ -765,10 +765,18 @@ def mk_choice(cond, a, b):
 
 
 # ---------------------------------------------------------------- scalar kernel
+def _same_or_choice(cond, x, y):
+    """cond ? x : y - which is just x when both sides are the same exact value (|(-v)| and |v|, ..)"""
+    from .algebra import Poly
+    if type(x) is type(y) and isinstance(x, (int, Fr, Poly)) and not isinstance(x, bool) and (x is y or repr(x) == repr(y)):
+        return x
+    return Choice(cond, x, y)
+
+
 def _lift_choice(op, a, b):
     if isinstance(a, Choice):
-        return Choice(a.cond, op(a.a, b), op(a.b, b))
-    return Choice(b.cond, op(a, b.a), op(a, b.b))
+        return _same_or_choice(a.cond, op(a.a, b), op(a.b, b))
+    return _same_or_choice(b.cond, op(a, b.a), op(a, b.b))
 
 
 def _wrap2(pyop, name):
